@@ -98,11 +98,25 @@ Fixpoint dec_nats (l : list wv) : option (list nat) :=
   | _ => None end.
 Definition enc_outs (o : option (list pval)) : wv :=
   match o with Some l => WL [WL (map enc_val l)] | None => WL [] end.
+(* the observation points of the residual program, in source order: (0 v) = a constant was baked in,
+   (1) = left to run time *)
+Fixpoint obs_stmt (s : stmt) : list wv :=
+  let fix obs_block (b : list stmt) : list wv := match b with [] => [] | x :: r => obs_stmt x ++ obs_block r end in
+  match s with
+  | SEmit v => [WL [WI 0; enc_val v]]
+  | SObs _ => [WL [WI 1]]
+  | SIf a b => obs_block a ++ obs_block b
+  | SWhile a => obs_block a
+  | SFor _ a => obs_block a
+  | _ => []
+  end.
+Definition obs_block := fix obs_block (b : list stmt) : list wv := match b with [] => [] | x :: r => obs_stmt x ++ obs_block r end.
 Definition run_env (prog orc : list wv) : wv :=
   match dec_stmts prog, dec_nats orc with
   | Some p, Some o =>
       WL [ wbool (match tblock p [] [] with Some _ => true | None => false end);
-           wbool (is_fresh p); enc_outs (firmware_outputs p o); enc_outs (python_outputs p o) ]
+           wbool (is_fresh p); enc_outs (firmware_outputs p o); enc_outs (python_outputs p o);
+           WL (match tblock p [] [] with Some (_, _, res, _) => obs_block res | None => [] end) ]
   | _, _ => wbad
   end.
 
